@@ -35,10 +35,33 @@ TrMissViaTable ==
   /\ Ev.wf
   /\ last'.exp = [buf |-> Ev.obs.buf, total |-> Ev.obs.total, dataLen |-> Ev.obs.dataLen,
                   inport |-> Ev.obs.inport, reason |-> Ev.obs.reason, emitted |-> ToSet(Ev.obs.emitted)]
+\* a packet-in with fewer than 14 octets of data does not say which frame it is (logged as tag "?")
+PinsMatch(ps, os) ==
+  /\ Len(ps) = Len(os)
+  /\ \A i \in DOMAIN ps :
+        /\ ps[i].buf = os[i].buf /\ ps[i].total = os[i].total /\ ps[i].dataLen = os[i].dataLen
+        /\ ps[i].inport = os[i].inport /\ ps[i].reason = os[i].reason
+        /\ (os[i].tag # "?" => ps[i].tag = os[i].tag /\ ps[i].k = os[i].k)
+TrUseL(k) ==
+  /\ IsEvent(k \o "L")
+  /\ UseL(k, Ev.args.buf, Ev.args.acts)
+  /\ Ev.wf
+  /\ last'.exp.emitted = ToSet(Ev.obs.emitted) /\ PinsMatch(last'.exp.pins, Ev.obs.pins)
+TrPacketOutDataL ==
+  /\ IsEvent("PacketOutDataL")
+  /\ PacketOutDataL(Ev.args.f, Ev.args.p, Ev.args.acts)
+  /\ Ev.wf
+  /\ last'.exp.emitted = ToSet(Ev.obs.emitted) /\ PinsMatch(last'.exp.pins, Ev.obs.pins)
+TrRxL ==
+  /\ IsEvent("RxL")
+  /\ RxL(Ev.args.f, Ev.args.p, Ev.args.acts)
+  /\ Ev.wf
+  /\ last'.exp.emitted = ToSet(Ev.obs.emitted) /\ PinsMatch(last'.exp.pins, Ev.obs.pins)
 TrSetConfig ==
   /\ IsEvent("SetConfig") /\ SetConfig(Ev.args.missLen) /\ Ev.wf
 
 TrNext == TrMissViaTable \/ TrToController \/ TrUse("PacketOut") \/ TrUse("FlowMod") \/ TrPacketOutData \/ TrSetConfig
+          \/ TrUseL("PacketOut") \/ TrUseL("FlowMod") \/ TrPacketOutDataL \/ TrRxL
 TrSpec == TrInit /\ [][TrNext]_tvars
 
 Progress == TLCSet(tid, IF TLCGet(tid) < l - 1 THEN l - 1 ELSE TLCGet(tid))
